@@ -370,6 +370,64 @@ func C05(c *core.Ctx) {
 		c.Decide(agree, "R5.3", "sibling-lock-kind:"+m, "-", "implementations agree: "+strings.Join(kinds, ", "), "FibStrategy implementations disagree on (or lack) the lock taken by "+m+": "+strings.Join(kinds, ", "))
 	}
 
+	// ---- R5.5 hash-table FIB: the maximum depth recorded for a virtual node is only raised
+	// on insertion (stored as max(old, len(name)), or initialised in a fresh entry)
+	if ins := c.Fn("R5.5", "fw/table", "FibStrategyHashTable", "insertEntryEnc"); ins != nil {
+		n := 0
+		core.Instrs(ins, func(in ssa.Instruction) {
+			fa, v, ok := storeToField(in, "virtualDetails", "md")
+			if !ok {
+				return
+			}
+			n++
+			_, fresh := core.Strip(fa.X).(*ssa.Alloc)
+			isMax := false
+			if cl, ok := core.StripConv(v).(*ssa.Call); ok {
+				if b, ok := cl.Call.Value.(*ssa.Builtin); ok && b.Name() == "max" {
+					for _, a := range cl.Call.Args {
+						if _, ok := core.FieldOf(a, "md"); ok {
+							isMax = true
+						}
+					}
+				}
+			}
+			c.Decide(fresh || isMax, "R5.5", fmt.Sprintf("virtual-depth-only-raised#%d", n), c.Pos(in), "md is initialised in a fresh entry or stored as max(md, len(name))", "insertEntryEnc can lower the maximum depth recorded for an existing virtual node: longer prefixes below it are no longer found by the longest-prefix match")
+		})
+		c.Floor("R5.5", "stores to virtualDetails.md in insertEntryEnc", n, 3)
+	}
+	// ---- R5.6 tree FIB: an entry is named only as the node of exactly that name
+	nName := 0
+	for _, fn := range p.FuncsIn(core.ModPath + "/fw/table") {
+		core.Instrs(fn, func(in ssa.Instruction) {
+			fa, v, ok := storeToField(in, "baseFibStrategyEntry", "name")
+			if !ok {
+				return
+			}
+			// only the tree FIB (entries embedded in fibStrategyTreeEntry)
+			outer, isEmb := core.Strip(fa.X).(*ssa.FieldAddr)
+			if !isEmb {
+				return
+			}
+			if t, _ := core.FieldAddrName(outer); t != "fibStrategyTreeEntry" {
+				return
+			}
+			nName++
+			node := core.Strip(outer.X)
+			okNode := false
+			if cl, ok := node.(*ssa.Call); ok {
+				if _, ok := core.IsCall(cl, core.CalleeID{Pkg: "fw/table", Recv: "FibStrategyTree", Name: "fillTreeToPrefixEnc"}); ok {
+					_, a := core.CallArgs(&cl.Call)
+					okNode = len(a) == 1 && core.Same(a[0], v)
+				}
+			}
+			if _, isRoot := core.FieldOf(node, "root"); isRoot && fn.Name() == "newFibStrategyTableTree" {
+				okNode = true
+			}
+			c.Decide(okNode && !core.InLoop(in.Block()), "R5.6", "tree-entry-named-by-own-prefix:"+core.FuncName(fn), c.Pos(in), "entry.name is set on the node returned by fillTreeToPrefixEnc(name) for that same name", core.FuncName(fn)+" names a tree node with a name that is not the node's own prefix (e.g. intermediate nodes created for a longer name): listings report next hops and strategies under the wrong prefix")
+		})
+	}
+	c.Floor("R5.6", "stores to a tree entry's name", nName, 3)
+
 	// ---- R5.4 tree descent compares the right component
 	for _, fnm := range []string{"findLongestPrefixEntryEnc", "findExactMatchEntryEnc"} {
 		fn := c.Fn("R5.4", "fw/table", "fibStrategyTreeEntry", fnm)
